@@ -220,7 +220,10 @@ func (g *Exec) str(d int) *Node {
 		return Call(Dot(g.str(d-1), "charAt"), g.num(d-1))
 	case x < 84:
 		// member access on a numeric literal
-		n := []string{"255", "7", "1.5", "1e3", "0x10"}[g.R.IntN(5)]
+		n := []string{"255", "7", "1.5", "1e3", "0x10", "0", "0", "10", "100", "0.5", "0b11", "0o17", "1E2", "9007199254740991", "1.0", "0.0", "0e0"}[g.R.IntN(17)]
+		if g.R.IntN(3) == 0 {
+			n = RandNum(g.R)
+		}
 		if g.R.IntN(2) == 0 {
 			return Call(Dot(Num(n), "toString"))
 		}
@@ -422,6 +425,20 @@ func (g *Exec) function(sd int) (*evar, []string, []*Node) {
 		body = append(body, r)
 	} else if g.R.IntN(2) == 0 {
 		body = append(body, &Node{K: KReturn})
+		if g.R.IntN(2) == 0 {
+			// dead code after a bare return: a statement that would continue the `return` if the line break between
+			// them did not end it (`return⏎-x`, `return⏎(x)`, `return⏎[x]`, a backtick string)
+			switch g.R.IntN(4) {
+			case 0:
+				body = append(body, ExprStmt(Un("-", g.num(1))))
+			case 1:
+				body = append(body, ExprStmt(Bin("*", Bin("+", g.num(1), g.num(1)), Num("2"))))
+			case 2:
+				body = append(body, ExprStmt(Dot(&Node{K: KArr, Kids: []*Node{g.num(1)}}, "length")))
+			default:
+				body = append(body, ExprStmt(g.tpl()))
+			}
+		}
 	}
 	g.loops = savedLoops
 	g.retType = g.retType[:len(g.retType)-1]
